@@ -1298,3 +1298,108 @@ func (m *Model) RunOkObj(s *Sink, rule string, fns []*ssa.Function) {
 		s.Note(rule, "comma-ok lookups", "-", "%d uses of the object of an (object, found) lookup (on the pinned tree: Env.Get in Set and in the identifier evaluation)", n)
 	}
 }
+
+// RunNilFuncCall: a function value taken out of a map and called. The zero value of a function type is nil, and
+// calling nil panics: the call is made where the lookup's found flag holds or the value was tested against nil.
+func (m *Model) RunNilFuncCall(s *Sink, rule string, fns []*ssa.Function) {
+	n := 0
+	for _, fn := range fns {
+		if fn.Blocks == nil {
+			continue
+		}
+		for _, b := range fn.Blocks {
+			for _, in := range b.Instrs {
+				ci, ok := in.(ssa.CallInstruction)
+				if !ok || ci.Common().IsInvoke() || ci.Common().StaticCallee() != nil {
+					continue
+				}
+				v := ci.Common().Value
+				var lk *ssa.Lookup
+				var tuple ssa.Value
+				switch x := v.(type) {
+				case *ssa.Lookup:
+					lk = x
+				case *ssa.Extract:
+					if l, isL := x.Tuple.(*ssa.Lookup); isL && x.Index == 0 {
+						lk, tuple = l, x.Tuple
+					}
+				}
+				if lk == nil {
+					continue
+				}
+				if _, isMap := lk.X.Type().Underlying().(*types.Map); !isMap {
+					continue
+				}
+				n++
+				key := fmt.Sprintf("%s|function value looked up in %s is called where it was found", fnKey(fn), valueDesc(lk.X))
+				guarded := false
+				for _, f := range pointOf(in).facts {
+					if ex, isEx := f.Cond.(*ssa.Extract); isEx && tuple != nil && ex.Tuple == tuple && ex.Index == 1 && f.Holds {
+						guarded = true
+					}
+					if bo, isBo := f.Cond.(*ssa.BinOp); isBo && (bo.Op == token.NEQ || bo.Op == token.EQL) {
+						for _, pr := range [][2]ssa.Value{{bo.X, bo.Y}, {bo.Y, bo.X}} {
+							if k, isK := pr[1].(*ssa.Const); isK && k.IsNil() && pr[0] == v && (bo.Op == token.NEQ) == f.Holds {
+								guarded = true
+							}
+						}
+					}
+				}
+				// a predicate of the module asked first with the same key and the holder of the table: each of its returns
+				// is false or "the entry under the key is not nil" (which table goes with which kind is R-REGISTRY's, C20)
+				if !guarded {
+					_, mapPath, okMP := pathOf(lk.X)
+					for _, f := range pointOf(in).facts {
+						pc, isCall := f.Cond.(*ssa.Call)
+						if !isCall || !f.Holds || pc.Call.StaticCallee() == nil || !m.InModule(pc.Call.StaticCallee()) || pc.Call.StaticCallee().Blocks == nil {
+							continue
+						}
+						pf := pc.Call.StaticCallee()
+						keyArg, holder := -1, false
+						for i, a := range pc.Call.Args {
+							if a == lk.Index {
+								keyArg = i
+							}
+							if _, ap, okA := pathOf(a); okA && okMP && ap != "" && strings.HasPrefix(mapPath, ap) {
+								holder = true
+							}
+						}
+						if keyArg < 0 || !holder || keyArg >= len(pf.Params) {
+							continue
+						}
+						exact := true
+						for _, pb := range pf.Blocks {
+							r, isR := pb.Instrs[len(pb.Instrs)-1].(*ssa.Return)
+							if !isR || len(r.Results) != 1 {
+								continue
+							}
+							if k, isK := r.Results[0].(*ssa.Const); isK && k.Value != nil && !constant.BoolVal(k.Value) {
+								continue
+							}
+							okRet := false
+							if bo, isBo := r.Results[0].(*ssa.BinOp); isBo && bo.Op == token.NEQ {
+								if k, isK := bo.Y.(*ssa.Const); isK && k.IsNil() {
+									if l2, isL := bo.X.(*ssa.Lookup); isL && l2.Index == ssa.Value(pf.Params[keyArg]) {
+										okRet = true
+									}
+								}
+							}
+							if !okRet {
+								exact = false
+							}
+						}
+						if exact {
+							guarded = true
+						}
+					}
+				}
+				if guarded {
+					s.OK(rule, key, m.InstrPos(in), "under the found flag of the lookup, a test against nil, or a predicate that answers whether the entry under this key is there")
+				} else {
+					s.Violation(rule, key, m.InstrPos(in), "%s calls the function it looked up in %s without having tested that the key was there: for a key the table does not hold the value is nil, and calling it panics (an operator or a name taken from the template selects the key)", fnKey(fn), valueDesc(lk.X))
+				}
+			}
+		}
+	}
+	s.Note(rule, "function values taken out of maps and called", "-", "%d sites", n)
+}
